@@ -325,9 +325,59 @@ def rnd_views(rng):
                        'w': str(rng.choice([1, 2, Fraction(1, 2), Fraction(3, 4), -1, 0, Fraction(5, 2)]))}}
 
 
+def rnd_bridge(rng):
+    """k >= 3 fields: outer fields with pairwise disjoint extents and one field that bridges them all, listed in a
+    random order (bridging field last in half of the cases): reduce() must end with ONE group"""
+    k = rng.randint(3, 5)
+    horiz = rng.random() < 0.5
+    outers = []
+    pos = -rng.randint(4, 7)
+    for _ in range(k - 1):
+        a, b = rng.randint(1, 3), rng.randint(1, 3)          # extent along / across the chain
+        across = rng.randint(-1, 1)
+        lo = pos
+        pos += a + rng.randint(0, 2)                           # next outer field starts after a gap >= 0
+        outers.append((lo, a, across, b))
+    span_lo, span_hi = outers[0][0], outers[-1][0] + outers[-1][1] - 1
+    fs = []
+    for lo, a, across, b in outers:
+        n, m = (b, a) if horiz else (a, b)
+        off_along = lo + a // 2
+        off = [across, off_along] if horiz else [off_along, across]
+        fs.append({'data': [[P7_gauss(rng) for _ in range(m)] for _ in range(n)], 'off': off})
+    # the bridge covers [span_lo, span_hi] along the chain and rows/cols -1..1 across
+    L = span_hi - span_lo + 1
+    bw = rng.randint(1, 3)
+    n, m = (bw, L) if horiz else (L, bw)
+    off_along = span_lo + L // 2
+    across = rng.randint(-1, 1) if bw > 1 else rng.choice([o[2] - (o[3] // 2) + rng.randrange(o[3]) for o in outers[:1]])
+    bridge = {'data': [[P7_gauss(rng) for _ in range(m)] for _ in range(n)],
+              'off': [across, off_along] if horiz else [off_along, across]}
+    order = rng.random()
+    if order < 0.5:
+        fs.append(bridge)
+    else:
+        fs.insert(rng.randrange(len(fs) + 1), bridge)
+        if rng.random() < 0.5:
+            rng.shuffle(fs)
+    ext_lo = span_lo - 1
+    size = span_hi - span_lo + 3
+    shape = [rng.randint(3, 6), size + rng.randint(0, 2)] if horiz else [size + rng.randint(0, 2), rng.randint(3, 6)]
+    R, Cc = shape[0] + rng.randint(-1, 1), shape[1] + rng.randint(-1, 1)
+    return {'op': 'views', 'L': 1, 'shape': shape, 'fs': fs,
+            'insert': {'out': [[rng.randint(-3, 5) for _ in range(max(1, Cc))] for _ in range(max(1, R))],
+                       'w': str(rng.choice([1, 2, Fraction(1, 2), Fraction(3, 4), -1, Fraction(5, 2)]))}}
+
+
+def P7_gauss(rng):
+    return rnd_gauss(rng, 0.0)
+
+
 def generate(rng, tier):
-    for _ in range(40 if tier == 'quick' else 600):
+    for _ in range(40 if tier == 'quick' else 500):
         yield rnd_views(rng)
+    for _ in range(40 if tier == 'quick' else 500):
+        yield rnd_bridge(rng)
     n = 170 if tier == 'quick' else 3000
     maxn = 6 if tier == 'quick' else 8
     out = 0
@@ -347,9 +397,27 @@ def generate(rng, tier):
         yield c
 
 
+def bridge_kind(c):
+    """does some field bridge two earlier, mutually disjoint fields?"""
+    def ext(f):
+        n, m = len(f['data']), len(f['data'][0])
+        r0, c0 = -(n // 2) + f['off'][0], -(m // 2) + f['off'][1]
+        return r0, r0 + n - 1, c0, c0 + m - 1
+
+    def meet(a, b):
+        return a[0] <= b[1] and b[0] <= a[1] and a[2] <= b[3] and b[2] <= a[3]
+    es = [ext(f) for f in c['fs']]
+    for k in range(2, len(es)):
+        for i in range(k):
+            for j in range(i + 1, k):
+                if not meet(es[i], es[j]) and meet(es[k], es[i]) and meet(es[k], es[j]):
+                    return 'late-bridge'
+    return 'plain'
+
+
 def classify(c):
     if c['op'] == 'views':
-        return f'views/{len(c["fs"])}'
+        return f'views/{len(c["fs"])}/' + bridge_kind(c)
     kinds = []
     for pl in c['planes']:
         g = plane_geom(pl)
